@@ -12,7 +12,7 @@ open Rosmar Rosmar.Sql
 /-- The row `removeRow` writes is the UPDATE's row (the CAS test is done in Go, before the statement). -/
 theorem tie_remove (cid : Nat) (k : String) (ifCas : Option Nat) (newCas now : Nat) (r : Row) :
     Writes (removeRow k ifCas newCas now (some r)) (fun r' _ =>
-      Collection_remove_UPDATE_0.exec
+      upd_cas_exp0_isJSON0_revSeqNo_tombstone1_valueN_xattrs__by_collection_key.exec
         (env [("$cas", .int newCas), ("$xattrs", encX (Xattrs.systemOnly r.xattrs)), ("$revSeqNo", .int (r.rev + 1)),
               ("c.id", .int cid), ("key", .text k)]) (some (enc cid k r))
         = { row := some (enc cid k r'), affected := 1 }) := by
@@ -20,13 +20,13 @@ theorem tie_remove (cid : Nat) (k : String) (ifCas : Option Nat) (newCas now : N
   dsimp only
   split
   · simp
-  · simp [Collection_remove_UPDATE_0, Update.exec, applySets, SRow.set, SRow.get, E.eval, env, enc, encV, ofBool, SV.truthy, SV.same]
+  · simp [upd_cas_exp0_isJSON0_revSeqNo_tombstone1_valueN_xattrs__by_collection_key, Update.exec, applySets, SRow.set, SRow.get, E.eval, env, enc, encV, ofBool, SV.truthy, SV.same]
 
 /-! ### DeleteWithXattrs / DeleteSubDocPaths -/
 
 theorem tie_delx (cid : Nat) (k : String) (names : List String) (newCas now : Nat) (r : Row) :
     Writes (delxRow k names newCas now (some r)) (fun r' ev =>
-      Collection_DeleteWithXattrs_UPDATE_0.exec
+      upd_cas_exp0_isJSON0_revSeqNo_tombstone1_valueN_xattrs__by_collection_key.exec
         (env [("$xattrs", encX r'.xattrs), ("$cas", .int newCas), ("$revSeqNo", .int (r.rev + 1)), ("c.id", .int cid), ("key", .text k)])
         (some (enc cid k r))
         = { row := some (enc cid k r'), affected := 1 }
@@ -35,6 +35,6 @@ theorem tie_delx (cid : Nat) (k : String) (names : List String) (newCas now : Na
   dsimp only
   cases hx : removeXattrs r.xattrs names
   · simp
-  · simp [Collection_DeleteWithXattrs_UPDATE_0, Update.exec, applySets, SRow.set, SRow.get, E.eval, env, enc, encV, ofBool, SV.truthy, SV.same]
+  · simp [upd_cas_exp0_isJSON0_revSeqNo_tombstone1_valueN_xattrs__by_collection_key, Update.exec, applySets, SRow.set, SRow.get, E.eval, env, enc, encV, ofBool, SV.truthy, SV.same]
 
 end Rosmar.Gen.Sql
